@@ -31,6 +31,22 @@ class ToolError(Exception):
     pass
 
 
+class ProjectRejected(Exception):
+    """A driver's own project - a valid configuration with valid translation files, part of the harness - was refused by the
+    library's macro while the driver was being built.  That is an observation about the library (a valid project must load),
+    not a failure of the tool: bin/check reports it as a violation of the property being checked."""
+    def __init__(self, package, msg, log):
+        Exception.__init__(self, "%s: %s" % (package, msg))
+        self.package, self.msg, self.log = package, msg, log
+
+
+def macro_rejection(build_log):
+    """the message of an error raised by load_locales!() / declare_locales!() itself (a plain `error:` without a compiler code,
+    pointing at the macro call), or None"""
+    m = re.search(r"^error: ([^\n]+)\n\s+--> [^\n]+\n[^\n]*\n[^\n]*(?:load_locales|declare_locales)!", build_log, re.M)
+    return m.group(1).strip() if m else None
+
+
 def log(*a):
     print("[check]", *a, file=sys.stderr, flush=True)
 
@@ -435,6 +451,9 @@ def cargo_build(package, features=(), bin_name=None, variant=None, timeout=3000,
     p = subprocess.run(cmd, cwd=HARNESS, env=env, stdout=subprocess.PIPE, stderr=subprocess.STDOUT,
                        text=True, errors="replace", timeout=timeout)
     if p.returncode != 0:
+        msg = macro_rejection(p.stdout)
+        if msg:
+            raise ProjectRejected(package, msg, p.stdout[-4000:])
         raise ToolError("cargo build failed for %s %s:\n%s" % (package, features, p.stdout[-6000:]))
     src = os.path.join(HARNESS, "target", "debug", bin_name)
     shutil.copy2(src, dst)
